@@ -35,6 +35,8 @@ def build(tier, seed):
     nmax = 6 if tier == 'quick' else 10
     for n in range(0, nmax + 1):
         cases.append({'kind': 'kn', 'n': n, 'npts': 40 if tier == 'quick' else 120})
+    for n in (-1, -2, -3, -6):         # "every integer order": K_{-n} = K_n
+        cases.append({'kind': 'kn', 'n': n, 'npts': 20 if tier == 'quick' else 60})
     for name in SPECIALS:
         cases.append({'kind': 'special', 'name': name, 'npts': 7 if tier == 'quick' else 25})
     return cases
@@ -302,7 +304,7 @@ def run_case(case):
                 continue
             # the order given as numpy integer (signed / unsigned) or integral float
             if ix % 4 == 0:
-                for cname, conv in (('np.int64', np.int64), ('np.uint8', np.uint8), ('np.uint64', np.uint64), ('float', float)):
+                for cname, conv in ((('np.int64', np.int64), ('np.uint8', np.uint8), ('np.uint64', np.uint64), ('float', float)) if n >= 0 else (('np.int64', np.int64), ('np.int8', np.int8), ('float', float))):
                     try:
                         r2 = pe.derived_observable(lambda z, **kw: pe.special.kn(conv(n), z[0]), [o])
                         d2, _ = _prop_deriv(r2, o)
